@@ -181,7 +181,7 @@ FN_OFF, FN_BLINK, FN_ON, FN_LAMP = 1, 2, 3, 4
 
 def led_args(rng):
     f = rng.choice([FN_OFF, FN_BLINK, FN_ON, FN_LAMP])
-    b = Bag('LedState', fru_id=fru(rng), led_id=rng.choice([0, 1, 2, 3, 255]), override_color=rng.choice([1, 2, 3, 4, 5, 6, 0xe, 0xf]),
+    b = Bag('LedState', fru_id=rng.choice([0, 1, 255]), led_id=rng.choice([0, 1, 255]), override_color=rng.choice([1, 2, 3, 4, 5, 6, 0xe, 0xf]),
             override_function=f, override_off_duration=None, override_on_duration=None, lamp_test_duration=None)
     if f == FN_BLINK:
         b.override_off_duration = rng.choice([1, 2, 100, 0xf9, rng.randrange(1, 0xfa)])
@@ -350,7 +350,7 @@ SPEC = {
     'fru_control': dict(kind='write', args=lambda r: {'fru_id': fru(r), 'option': small(r, 4)},
                         req=lambda a: (0x2c, 0x04, 0, P(a['fru_id'], a['option'])), res=lambda a, d: bytes(d[1:])),
     'set_led_state': dict(kind='write', args=led_args, req=led_req, res=lambda a, d: None),
-    'get_led_state': dict(kind='read', args=lambda r: {'fru_id': fru(r), 'led_id': r.choice([0, 1, 2, 3, 255])},
+    'get_led_state': dict(kind='read', args=lambda r: {'fru_id': r.choice([0, 1, 255]), 'led_id': r.choice([0, 1, 255])},
                           req=lambda a: (0x2c, 0x08, 0, P(a['fru_id'], a['led_id'])), res=led_res),
     'set_fan_level': dict(kind='write', args=lambda r: {'fru_id': fru(r), 'fan_level': u8(r)},
                           req=lambda a: (0x2c, 0x15, 0, P(a['fru_id'], a['fan_level'])), res=lambda a, d: None,
